@@ -2161,6 +2161,17 @@ func (c *RemoteClient) handleMessage(ctx context.Context, m *Message) error {
 	}
 
 	// Handle message
+	if !c.accepted.Load().(bool) {
+		switch m.Payload.(type) {
+		case *AcceptRegister, *Reject, *Ping, *Pong:
+		default:
+			// The server has not authenticated itself yet, so its data must not reach handlers
+			// or pending requests.
+			logger.Warn(ctx, "Ignoring message received before the connection was accepted")
+			return nil
+		}
+	}
+
 	switch msg := m.Payload.(type) {
 	case *AcceptRegister:
 		logger.Info(ctx, "Received accept register")
